@@ -41,6 +41,7 @@ type World struct {
 	Accounts []genesis.DevAccount
 	FC       *thor.ForkConfig
 	gene     *genesis.CustomGenesis
+	built    *genesis.Genesis // built once per configuration: genesis.NewCustomNet opens a throw-away in-memory database per call and never closes it
 	Launch   uint64
 }
 
@@ -117,6 +118,23 @@ type Node struct {
 	Base    int // number of writes issued by genesis construction (cuts start here)
 	logDir  string
 	NoLogs  bool // run with Options.SkipLogs (crash images: the log db is a separate database, out of scope here)
+	// BeforeCommit, if set, runs in the importing goroutine between repo.AddBlock (the block is published as best) and
+	// bft.CommitBlock of every imported block: a window without any store write, in which a reader already observes the
+	// new best block while its quality record does not exist yet (C20 runs a reader there).
+	BeforeCommit func(h *block.Header)
+}
+
+// hookedBFT is the real engine behind the node's bft.Committer interface, with the BeforeCommit observer.
+type hookedBFT struct {
+	*bft.Engine
+	n *Node
+}
+
+func (h hookedBFT) CommitBlock(header *block.Header, conflicts uint32, isPacking bool) error {
+	if f := h.n.BeforeCommit; f != nil {
+		f(header)
+	}
+	return h.Engine.CommitBlock(header, conflicts, isPacking)
 }
 
 // NewNode builds genesis on a fresh recording engine and starts a node on it.
@@ -124,10 +142,14 @@ func (w *World) NewNode(withCache bool) *Node {
 	eng := NewRecEngine()
 	n := &Node{W: w, Eng: eng}
 	n.DB = w.openDB(eng, withCache)
-	builder, err := genesis.NewCustomNet(w.gene)
-	if err != nil {
-		hx.Fatal("genesis: %v", err)
+	if w.built == nil {
+		g, err := genesis.NewCustomNet(w.gene)
+		if err != nil {
+			hx.Fatal("genesis: %v", err)
+		}
+		w.built = g
 	}
+	builder := w.built
 	n.Stater = state.NewStater(n.DB)
 	gen, _, _, err := builder.Build(n.Stater)
 	if err != nil {
@@ -191,7 +213,7 @@ func (n *Node) open() error {
 	}
 	dir, _ := os.MkdirTemp("", "c13stash")
 	os.RemoveAll(dir)
-	n.Node = node.New(&node.Master{PrivateKey: master.PrivateKey}, repo, eng, n.Stater, n.LogDB, nopPool{}, dir, nopComm{}, w.FC,
+	n.Node = node.New(&node.Master{PrivateKey: master.PrivateKey}, repo, hookedBFT{eng, n}, n.Stater, n.LogDB, nopPool{}, dir, nopComm{}, w.FC,
 		node.Options{TargetGasLimit: 10_000_000, SkipLogs: n.NoLogs},
 		consensus.New(repo, n.Stater, w.FC),
 		packer.New(repo, n.Stater, master.Address, &master.Address, w.FC, 10_000_000))
